@@ -1,6 +1,6 @@
 #!/bin/bash
 # seedrun.sh <seed-dir> <ID> [tier]   apply a seeded change to /repo, run the check, undo it.
-sd="$1"; id="$2"; tier="${3:-quick}"
+sd="$(realpath "$1")"; id="$2"; tier="${3:-quick}"
 cd /verif
 git -C /repo diff --quiet || { echo "/repo has uncommitted changes"; exit 2; }
 git -C /repo apply -3 "$sd/patch.diff" 2>/dev/null || git -C /repo apply "$sd/patch.diff" || { echo "patch does not apply to /repo"; exit 2; }
